@@ -322,6 +322,7 @@ func propC05() *lib.Prop {
 				}
 				return stores[kgc]
 			}
+			tstores := map[int]*operator.TimerStore{}
 			var kb []byte
 			subj := func(k []byte) []byte { kb = append(kb[:0], k...); return kb }
 			for _, op := range c.Ops {
@@ -348,9 +349,11 @@ func propC05() *lib.Prop {
 				case "subjkey":
 					out = append(out, lib.Hex(storeOf(at(1)).VerifEncodeSubjectKey(subj(lib.UnHex(f[2])))))
 				case "timerkey":
-					ts := operator.NewTimerStore(nil, partitioning.NewKeySpace(at(1), 1), partitioning.KeyGroupRange{Start: 0, End: 1}, 1024)
+					if tstores[at(1)] == nil {
+						tstores[at(1)] = operator.NewTimerStore(nil, partitioning.NewKeySpace(at(1), 1), partitioning.KeyGroupRange{Start: 0, End: 1}, 1024)
+					}
 					t, _ := strconv.ParseUint(f[3], 10, 64)
-					out = append(out, lib.Hex(ts.VerifEncodeTimerKey(lib.UnHex(f[2]), time.Unix(0, int64(t)))))
+					out = append(out, lib.Hex(tstores[at(1)].VerifEncodeTimerKey(subj(lib.UnHex(f[2])), time.Unix(0, int64(t)))))
 				case "redeploy":
 					out = append(out, c05Redeploy(at(1), at(2), at(3), at(4), at(5), lib.UnHex(f[6])))
 				case "deploy":
